@@ -18,7 +18,8 @@ fn corpus(tier: Tier) -> Vec<String> {
     for d in [
         "",
         "a",
-        "+--+\n|{a}|\n+--+\n# Legend:\na = {fill:red}\n",
+        "+---+\n|{a}|\n+---+\n# Legend:\na = {fill:red}\n",
+        "+------+\n| {w}  |\n+------+  .-----.\n          |{a,b}|\n          '-----'",
         "*-->\n\"<q>\" & 'x'\n# Legend:\nz = {stroke:blue}\ny = {fill:none}",
         ".-.\n| |\n'-'  text here",
         "一二三 ─┐\n      │",
